@@ -1,0 +1,233 @@
+//go:build verif
+
+// Contracts for audit.go and netlink.go, read by the verifier in /verif (build
+// tag verif). Comments only; no code is added to the package.
+
+package libaudit
+
+// The kernel side is the environment. Every call through the exported Netlink
+// field returns arbitrary results (any sequence number, any error, any
+// messages, any payload bytes) and is logged in the ghost trace envlog.
+//
+//@ env libaudit.NetlinkSendReceiver.Send
+//@ log
+//@ env libaudit.NetlinkSendReceiver.Receive
+//@ log
+//@ modifies envbytes
+//@ ensures !isNil(result1) ==> len(result0) == 0
+//@ env libaudit.NetlinkSendReceiver.Close
+//@ log
+
+// Trace entries of the Netlink interface (arguments from index 0, results from 16):
+//   Send(msg) (seq, err): Header.Len@0 Type@1 Flags@2 Seq@3 Pid@4, Data=(ref@5,off@6,len@7,cap@8); seq@16, err@17
+//   Receive(nonBlocking, p) (msgs, err): nonBlocking@0, p@1; msgs=(ref@16,off@17,len@18,cap@19), err@20
+// recvMsg(i) is the first message of the slice returned by entry i.
+//
+//@ spec kSend() int := envkindOf(libaudit.NetlinkSendReceiver.Send)
+//@ spec kRecv() int := envkindOf(libaudit.NetlinkSendReceiver.Receive)
+//@ spec recvOK(i int) bool := envkind(i) == kRecv() && envarg(i, 20) == 0 && envarg(i, 18) >= 1
+// the kernel's verdict carried by an NLMSG_ERROR message
+//@ spec isAck(m syscall.NetlinkMessage) bool := m.Header.Type == syscall.NLMSG_ERROR && len(m.Data) >= 4
+//@ spec ackErrno(m syscall.NetlinkMessage) int := 0 - s32(le32(m.Data, 0))
+
+//@ func libaudit.ParseNetlinkError
+//@ pure
+//@ ensures[C08] len(netlinkData) >= 4 ==> (isNil(result0) == (le32(netlinkData, 0) == 0))
+//@ ensures[C08] len(netlinkData) >= 4 && le32(netlinkData, 0) != 0 ==> typeIs(result0, syscall.Errno) && payload(result0) != 0
+//@ ensures[C08] len(netlinkData) >= 4 && -4095 <= s32(le32(netlinkData, 0)) && s32(le32(netlinkData, 0)) < 0 ==> payload(result0) == 0 - s32(le32(netlinkData, 0)) -- the kernel's errno range
+//@ ensures[C08] len(netlinkData) < 4 ==> !isNil(result0)
+
+// getReply: success means the last receive of this call succeeded, its first
+// message carries exactly the requested sequence number and is what is
+// returned; every successful receive before it in this call returned an
+// unsolicited event (sequence 0, and the request's sequence is not 0). A reply
+// with a foreign sequence number is never returned.
+//
+//@ func (*libaudit.AuditClient).getReply
+//@ requires !isNil(c.Netlink)
+//@ modifies envbytes, alloc, envlog
+//@ ensures[C08] isNil(result1) == (result0 != nil)
+//@ ensures[C08] isNil(result1) ==> result0.Header.Seq == seq && envlen() > old(envlen()) && recvOK(envlen() - 1)
+//@ ensures[C08] isNil(result1) ==> result0.Header.Type == recvMsg(envlen() - 1).Header.Type && result0.Header.Seq == recvMsg(envlen() - 1).Header.Seq && base(result0.Data) == base(recvMsg(envlen() - 1).Data) && lo(result0.Data) == lo(recvMsg(envlen() - 1).Data) && len(result0.Data) == len(recvMsg(envlen() - 1).Data)
+//@ ensures[C08] isNil(result1) ==> (forall i int :: old(envlen()) <= i && i < envlen() - 1 && recvOK(i) ==> recvMsg(i).Header.Seq == 0 && seq != 0)
+//@ ensures[C08] !isNil(result1) ==> envlen() > old(envlen()) && !(recvOK(envlen() - 1) && recvMsg(envlen() - 1).Header.Seq == seq)
+//@ ensures[C08] forall i int :: old(envlen()) <= i && i < envlen() ==> envkind(i) == kRecv()
+//@ ensures[C08] forall i int :: 0 <= i && i < old(envlen()) ==> envkind(i) == old(envkind(i)) && (forall a int :: envarg(i, a) == old(envarg(i, a))) && (forall k int :: envbyte(i, k) == old(envbyte(i, k)))
+//@ loop 0 invariant forall i int :: old(envlen()) <= i && i < envlen() - 1 && recvOK(i) ==> recvMsg(i).Header.Seq == 0 && seq != 0
+//@ loop 0 invariant receiveMore && envlen() > old(envlen()) && recvOK(envlen() - 1) ==> recvMsg(envlen() - 1).Header.Seq == 0 && seq != 0
+//@ loop 0 invariant !receiveMore ==> envlen() > old(envlen()) && recvOK(envlen() - 1) && msg.Header.Type == recvMsg(envlen() - 1).Header.Type && msg.Header.Seq == recvMsg(envlen() - 1).Header.Seq && base(msg.Data) == base(recvMsg(envlen() - 1).Data) && lo(msg.Data) == lo(recvMsg(envlen() - 1).Data) && len(msg.Data) == len(recvMsg(envlen() - 1).Data)
+//@ loop 0 invariant forall i int :: old(envlen()) <= i && i < envlen() ==> envkind(i) == kRecv()
+//@ loop 0 invariant forall i int :: 0 <= i && i < old(envlen()) ==> envkind(i) == old(envkind(i)) && (forall a int :: envarg(i, a) == old(envarg(i, a))) && (forall k int :: envbyte(i, k) == old(envbyte(i, k)))
+//@ loop 0 invariant envlen() >= old(envlen())
+//@ loop 1 invariant forall i int :: old(envlen()) <= i && i < envlen() && recvOK(i) ==> recvMsg(i).Header.Seq == 0 && seq != 0
+//@ loop 1 invariant forall i int :: old(envlen()) <= i && i < envlen() ==> envkind(i) == kRecv()
+//@ loop 1 invariant forall i int :: 0 <= i && i < old(envlen()) ==> envkind(i) == old(envkind(i)) && (forall a int :: envarg(i, a) == old(envarg(i, a))) && (forall k int :: envbyte(i, k) == old(envbyte(i, k)))
+//@ loop 1 invariant envlen() >= old(envlen())
+//@ loop 1 invariant i > 0 ==> envlen() > old(envlen()) && envkind(envlen() - 1) == kRecv() && envarg(envlen() - 1, 20) != 0 && len(msgs) == 0
+
+// ---------------------------------------------------------------------------
+// One request as seen in the trace, e0 = index of its Send entry.
+//@ spec sentSeq(e0 int) int := envarg(e0, 16)
+//@ spec sendOK(e0 int) bool := envkind(e0) == kSend() && envarg(e0, 17) == 0
+//@ spec sendIs(e0 int, typ int, datalen int) bool := envkind(e0) == kSend() && envarg(e0, 1) == typ && envarg(e0, 2) == 5 && envarg(e0, 7) == datalen
+// the reply in entry e belongs to request q and is the kernel's ACK with errno 0
+//@ spec ackOKat(e int, q int) bool := recvOK(e) && recvMsg(e).Header.Seq == q && isAck(recvMsg(e)) && le32(recvMsg(e).Data, 0) == 0
+// ... or an ACK carrying errno n (1..4095)
+//@ spec ackErrAt(e int, q int, n int) bool := recvOK(e) && recvMsg(e).Header.Seq == q && isAck(recvMsg(e)) && s32(le32(recvMsg(e).Data, 0)) == 0 - n && 1 <= n && n <= 4095
+//@ spec oldLogKept() bool := forall i int :: 0 <= i && i < old(envlen()) ==> envkind(i) == old(envkind(i)) && (forall a int :: envarg(i, a) == old(envarg(i, a)))
+
+//@ func (*libaudit.AuditClient).AddRule
+//@ forall-params n int
+//@ requires !isNil(c.Netlink)
+//@ modifies envbytes, alloc, envlog
+//@ ensures[C08] envlen() > old(envlen()) && sendIs(old(envlen()), 1011, len(rule)) && envarg(old(envlen()), 5) == base(rule) && envarg(old(envlen()), 6) == lo(rule)
+//@ ensures[C08] !sendOK(old(envlen())) ==> !isNil(result0) && envlen() == old(envlen()) + 1
+//@ ensures[C08] isNil(result0) ==> sendOK(old(envlen())) && envlen() > old(envlen()) + 1 && ackOKat(envlen() - 1, sentSeq(old(envlen())))
+//@ ensures[C08] sendOK(old(envlen())) && ackOKat(envlen() - 1, sentSeq(old(envlen()))) ==> isNil(result0)
+//@ ensures[C08] sendOK(old(envlen())) && ackErrAt(envlen() - 1, sentSeq(old(envlen())), n) ==> !isNil(result0) && (errIs(result0, errno(n)) || n == 17)
+//@ ensures[C08] forall i int :: old(envlen()) < i && i < envlen() ==> envkind(i) == kRecv()
+//@ ensures[C08] oldLogKept()
+
+//@ func (*libaudit.AuditClient).DeleteRule
+//@ forall-params n int
+//@ requires !isNil(c.Netlink)
+//@ modifies envbytes, alloc, envlog
+//@ ensures[C08] envlen() > old(envlen()) && sendIs(old(envlen()), 1012, len(rule)) && envarg(old(envlen()), 5) == base(rule) && envarg(old(envlen()), 6) == lo(rule)
+//@ ensures[C08] !sendOK(old(envlen())) ==> !isNil(result0) && envlen() == old(envlen()) + 1
+//@ ensures[C08] isNil(result0) ==> sendOK(old(envlen())) && envlen() > old(envlen()) + 1 && ackOKat(envlen() - 1, sentSeq(old(envlen())))
+//@ ensures[C08] sendOK(old(envlen())) && ackOKat(envlen() - 1, sentSeq(old(envlen()))) ==> isNil(result0)
+//@ ensures[C08] sendOK(old(envlen())) && ackErrAt(envlen() - 1, sentSeq(old(envlen())), n) ==> !isNil(result0) && errIs(result0, errno(n))
+//@ ensures[C08] forall i int :: old(envlen()) < i && i < envlen() ==> envkind(i) == kRecv()
+//@ ensures[C08] oldLogKept()
+
+// ---------------------------------------------------------------------------
+// C16: audit_status on the wire. statusWords: the eleven 32-bit words of the
+// payload of Send entry e, as they were when Send was called.
+//@ spec statusWords(e int, w0 int, w1 int, w2 int, w3 int, w4 int, w5 int, w6 int, w7 int, w8 int, w9 int, w10 int) bool :=
+//@   envle32(e, 0) == w0 && envle32(e, 4) == w1 && envle32(e, 8) == w2 && envle32(e, 12) == w3 && envle32(e, 16) == w4 && envle32(e, 20) == w5
+//@   && envle32(e, 24) == w6 && envle32(e, 28) == w7 && envle32(e, 32) == w8 && envle32(e, 36) == w9 && envle32(e, 40) == w10
+
+//@ layout[C16] . AuditStatus audit_status
+//@ consts[C16] . AuditGet=msgtype.AUDIT_GET AuditSet=msgtype.AUDIT_SET MinSizeofAuditStatus=limits.AUDIT_STATUS_MIN_SIZE sizeofAuditStatus=limits.AUDIT_STATUS_SIZE
+//@ consts[C16] . AuditStatusEnabled=status_mask.AUDIT_STATUS_ENABLED AuditStatusFailure=status_mask.AUDIT_STATUS_FAILURE AuditStatusPID=status_mask.AUDIT_STATUS_PID AuditStatusRateLimit=status_mask.AUDIT_STATUS_RATE_LIMIT AuditStatusBacklogLimit=status_mask.AUDIT_STATUS_BACKLOG_LIMIT AuditStatusBacklogWaitTime=status_mask.AUDIT_STATUS_BACKLOG_WAIT_TIME AuditStatusLost=status_mask.AUDIT_STATUS_LOST
+//@ consts[C16] . AuditFeatureBitmapBacklogLimit=feature_bitmap.AUDIT_FEATURE_BITMAP_BACKLOG_LIMIT AuditFeatureBitmapBacklogWaitTime=feature_bitmap.AUDIT_FEATURE_BITMAP_BACKLOG_WAIT_TIME AuditFeatureBitmapExecutablePath=feature_bitmap.AUDIT_FEATURE_BITMAP_EXECUTABLE_PATH AuditFeatureBitmapExcludeExtend=feature_bitmap.AUDIT_FEATURE_BITMAP_EXCLUDE_EXTEND AuditFeatureBitmapSessionIDFilter=feature_bitmap.AUDIT_FEATURE_BITMAP_SESSIONID_FILTER AuditFeatureBitmapLostReset=feature_bitmap.AUDIT_FEATURE_BITMAP_LOST_RESET
+//@ consts[C16] . SilentOnFailure=failure.AUDIT_FAIL_SILENT LogOnFailure=failure.AUDIT_FAIL_PRINTK PanicOnFailure=failure.AUDIT_FAIL_PANIC
+
+// set: one AUDIT_SET request with REQUEST|ACK whose payload is the full-size
+// status; WaitForReply: the verdict of this request; NoWait: the sequence number
+// is appended to the pending list and nothing is received.
+//@ func (*libaudit.AuditClient).set
+//@ forall-params n int
+//@ requires !isNil(c.Netlink)
+//@ modifies c.pendingAcks, elemsOf(uint32), envbytes, alloc, envlog
+//@ ensures[C16] envlen() > old(envlen()) && sendIs(old(envlen()), 1001, 44)
+//@ ensures[C16] statusWords(old(envlen()), status.Mask, status.Enabled, status.Failure, status.PID, status.RateLimit, status.BacklogLimit, status.Lost, status.Backlog, status.FeatureBitmap, status.BacklogWaitTime, status.BacklogWaitTimeActual)
+//@ ensures[C08] !sendOK(old(envlen())) ==> !isNil(result0) && envlen() == old(envlen()) + 1 && len(c.pendingAcks) == old(len(c.pendingAcks))
+//@ ensures[C08] mode != NoWait && isNil(result0) ==> sendOK(old(envlen())) && envlen() > old(envlen()) + 1 && ackOKat(envlen() - 1, sentSeq(old(envlen())))
+//@ ensures[C08] mode != NoWait && sendOK(old(envlen())) && ackOKat(envlen() - 1, sentSeq(old(envlen()))) ==> isNil(result0)
+//@ ensures[C08] mode != NoWait && sendOK(old(envlen())) && ackErrAt(envlen() - 1, sentSeq(old(envlen())), n) ==> !isNil(result0) && errIs(result0, errno(n))
+//@ ensures[C17] mode != NoWait ==> len(c.pendingAcks) == old(len(c.pendingAcks)) && base(c.pendingAcks) == old(base(c.pendingAcks)) && lo(c.pendingAcks) == old(lo(c.pendingAcks))
+//@ ensures[C17] mode == NoWait && sendOK(old(envlen())) ==> isNil(result0) && envlen() == old(envlen()) + 1 && len(c.pendingAcks) == old(len(c.pendingAcks)) + 1 && c.pendingAcks[len(c.pendingAcks) - 1] == sentSeq(old(envlen()))
+//@ ensures[C17] mode == NoWait && sendOK(old(envlen())) ==> lo(c.pendingAcks) == old(lo(c.pendingAcks)) && (forall k int :: old(lo(c.pendingAcks)) <= k && k < old(hi(c.pendingAcks)) ==> at(c.pendingAcks, k) == old(at(c.pendingAcks, k)))
+//@ ensures[C08] forall i int :: old(envlen()) < i && i < envlen() ==> envkind(i) == kRecv()
+//@ ensures[C08] oldLogKept()
+
+//@ func (*libaudit.AuditClient).SetRateLimit
+//@ requires !isNil(c.Netlink)
+//@ modifies c.pendingAcks, elemsOf(uint32), envbytes, alloc, envlog
+//@ ensures[C16] sendIs(old(envlen()), 1001, 44) && statusWords(old(envlen()), 8, 0, 0, 0, perSecondLimit, 0, 0, 0, 0, 0, 0)
+//@ func (*libaudit.AuditClient).SetBacklogLimit
+//@ requires !isNil(c.Netlink)
+//@ modifies c.pendingAcks, elemsOf(uint32), envbytes, alloc, envlog
+//@ ensures[C16] sendIs(old(envlen()), 1001, 44) && statusWords(old(envlen()), 16, 0, 0, 0, 0, limit, 0, 0, 0, 0, 0)
+//@ func (*libaudit.AuditClient).SetEnabled
+//@ requires !isNil(c.Netlink)
+//@ modifies c.pendingAcks, elemsOf(uint32), envbytes, alloc, envlog
+//@ ensures[C16] sendIs(old(envlen()), 1001, 44) && statusWords(old(envlen()), 1, (if enabled then 1 else 0), 0, 0, 0, 0, 0, 0, 0, 0, 0)
+//@ func (*libaudit.AuditClient).SetImmutable
+//@ requires !isNil(c.Netlink)
+//@ modifies c.pendingAcks, elemsOf(uint32), envbytes, alloc, envlog
+//@ ensures[C16] sendIs(old(envlen()), 1001, 44) && statusWords(old(envlen()), 1, 2, 0, 0, 0, 0, 0, 0, 0, 0, 0)
+//@ func (*libaudit.AuditClient).SetFailure
+//@ requires !isNil(c.Netlink)
+//@ modifies c.pendingAcks, elemsOf(uint32), envbytes, alloc, envlog
+//@ ensures[C16] sendIs(old(envlen()), 1001, 44) && statusWords(old(envlen()), 2, 0, fm, 0, 0, 0, 0, 0, 0, 0, 0)
+//@ func (*libaudit.AuditClient).SetBacklogWaitTime
+//@ requires !isNil(c.Netlink)
+//@ modifies c.pendingAcks, elemsOf(uint32), envbytes, alloc, envlog
+//@ ensures[C16] sendIs(old(envlen()), 1001, 44) && statusWords(old(envlen()), 32, 0, 0, 0, 0, 0, 0, 0, 0, waitTime mod 4294967296, 0)
+//@ func (*libaudit.AuditClient).SetPID
+//@ requires !isNil(c.Netlink)
+//@ modifies c.clearPIDOnClose, c.pendingAcks, elemsOf(uint32), envbytes, alloc, envlog
+//@ ensures[C16] sendIs(old(envlen()), 1001, 44) && statusWords(old(envlen()), 4, 0, 0, ospid(), 0, 0, 0, 0, 0, 0, 0)
+//@ ensures[C17] c.clearPIDOnClose
+
+// FromWireFormat: at least the 2.6.32 size, missing fields zero, trailing bytes ignored.
+//@ func (*libaudit.AuditStatus).FromWireFormat
+//@ modifies s.*
+//@ ensures[C16] len(buf) < 32 ==> !isNil(result0) && result0 == io.ErrUnexpectedEOF && s.Mask == old(s.Mask) && s.Enabled == old(s.Enabled) && s.PID == old(s.PID) && s.Backlog == old(s.Backlog) && s.FeatureBitmap == old(s.FeatureBitmap) && s.BacklogWaitTimeActual == old(s.BacklogWaitTimeActual)
+//@ ensures[C16] len(buf) >= 32 ==> isNil(result0) && s.Mask == le32(buf, 0) && s.Enabled == le32(buf, 4) && s.Failure == le32(buf, 8) && s.PID == le32(buf, 12) && s.RateLimit == le32(buf, 16) && s.BacklogLimit == le32(buf, 20) && s.Lost == le32(buf, 24) && s.Backlog == le32(buf, 28)
+//@ ensures[C16] len(buf) >= 36 ==> s.FeatureBitmap == le32(buf, 32)
+//@ ensures[C16] len(buf) >= 40 ==> s.BacklogWaitTime == le32(buf, 36)
+//@ ensures[C16] len(buf) >= 44 ==> s.BacklogWaitTimeActual == le32(buf, 40)
+//@ ensures[C16] len(buf) >= 32 && len(buf) <= 32 ==> s.FeatureBitmap == 0
+//@ ensures[C16] len(buf) >= 32 && len(buf) <= 36 ==> s.BacklogWaitTime == 0
+//@ ensures[C16] len(buf) >= 32 && len(buf) <= 40 ==> s.BacklogWaitTimeActual == 0
+
+// ---------------------------------------------------------------------------
+// GetStatus: AUDIT_GET with REQUEST|ACK and no payload; success means the reply
+// obtained for this request has type AUDIT_GET and at least the 2.6.32 size, and
+// the fields are exactly the words the kernel laid out.
+//@ spec kClose() int := envkindOf(libaudit.NetlinkSendReceiver.Close)
+//
+//@ func (*libaudit.AuditClient).GetStatus
+//@ requires !isNil(c.Netlink)
+//@ modifies envbytes, alloc, envlog
+//@ ensures[C16,C08] envlen() > old(envlen()) && sendIs(old(envlen()), 1000, 0)
+//@ ensures[C08] isNil(result1) == (result0 != nil)
+//@ ensures[C08] !sendOK(old(envlen())) ==> !isNil(result1)
+//@ ensures[C08] isNil(result1) ==> recvOK(envlen() - 1) && recvMsg(envlen() - 1).Header.Seq == sentSeq(old(envlen())) && recvMsg(envlen() - 1).Header.Type == 1000 && len(recvMsg(envlen() - 1).Data) >= 32
+//@ ensures[C16,C08] isNil(result1) ==> result0.Mask == le32(recvMsg(envlen() - 1).Data, 0) && result0.Enabled == le32(recvMsg(envlen() - 1).Data, 4) && result0.Failure == le32(recvMsg(envlen() - 1).Data, 8) && result0.PID == le32(recvMsg(envlen() - 1).Data, 12)
+//@ ensures[C16,C08] isNil(result1) ==> result0.RateLimit == le32(recvMsg(envlen() - 1).Data, 16) && result0.BacklogLimit == le32(recvMsg(envlen() - 1).Data, 20) && result0.Lost == le32(recvMsg(envlen() - 1).Data, 24) && result0.Backlog == le32(recvMsg(envlen() - 1).Data, 28)
+//@ ensures[C16,C08] isNil(result1) && len(recvMsg(envlen() - 1).Data) >= 44 ==> result0.FeatureBitmap == le32(recvMsg(envlen() - 1).Data, 32) && result0.BacklogWaitTime == le32(recvMsg(envlen() - 1).Data, 36) && result0.BacklogWaitTimeActual == le32(recvMsg(envlen() - 1).Data, 40)
+
+// GetRules: replies until NLMSG_DONE, each of type LIST_RULES; every returned
+// slice is private to the caller (allocated here, never handed to the
+// environment), so later receives that reuse the receive buffer cannot change it.
+//@ func (*libaudit.AuditClient).GetRules
+//@ requires !isNil(c.Netlink)
+//@ modifies envbytes, alloc, envlog
+//@ ensures[C08] envlen() > old(envlen()) && sendIs(old(envlen()), 1013, 0)
+//@ ensures[C08] !sendOK(old(envlen())) ==> !isNil(result1)
+//@ ensures[C08] isNil(result1) ==> recvOK(envlen() - 1) && recvMsg(envlen() - 1).Header.Seq == sentSeq(old(envlen())) && recvMsg(envlen() - 1).Header.Type == syscall.NLMSG_DONE
+//@ ensures[C08] !isNil(result1) ==> len(result0) == 0
+//@ ensures[C17] forall k int :: lo(result0) <= k && k < hi(result0) ==> !envowned(at(result0, k)) && allocated(at(result0, k)) && base(at(result0, k)) != 0
+//@ loop 0 invariant[C17] forall k int :: lo(rules) <= k && k < hi(rules) ==> !envowned(at(rules, k)) && allocated(at(rules, k)) && base(at(rules, k)) != 0
+//@ loop 0 invariant envlen() > old(envlen()) && sendIs(old(envlen()), 1013, 0) && sendOK(old(envlen()))
+//@ loop 0 invariant seq == sentSeq(old(envlen()))
+
+// WaitForPendingACKs: the pending list is consumed from the front; an ACK that
+// was read is no longer pending whatever its outcome.
+//@ func (*libaudit.AuditClient).WaitForPendingACKs
+//@ requires !isNil(c.Netlink)
+//@ modifies c.pendingAcks, envbytes, alloc, envlog
+//@ ensures[C17] base(c.pendingAcks) == old(base(c.pendingAcks)) && hi(c.pendingAcks) == old(hi(c.pendingAcks)) && lo(c.pendingAcks) >= old(lo(c.pendingAcks))
+//@ ensures[C17] isNil(result0) ==> len(c.pendingAcks) == 0
+//@ ensures[C17] !isNil(result0) ==> lo(c.pendingAcks) > old(lo(c.pendingAcks))
+//@ ensures[C17] old(len(c.pendingAcks)) == 0 ==> envlen() == old(envlen()) && isNil(result0)
+//@ ensures[C17] forall i int :: old(envlen()) <= i && i < envlen() ==> envkind(i) == kRecv()
+//@ loop 0 invariant[C17] base(c.pendingAcks) == old(base(c.pendingAcks)) && hi(c.pendingAcks) == old(hi(c.pendingAcks)) && lo(c.pendingAcks) >= old(lo(c.pendingAcks))
+//@ loop 0 invariant[C17] lo(c.pendingAcks) == old(lo(c.pendingAcks)) ==> envlen() == old(envlen())
+//@ loop 0 invariant[C17] forall i int :: old(envlen()) <= i && i < envlen() ==> envkind(i) == kRecv()
+//@ loop 0 invariant envlen() >= old(envlen())
+
+// Close: once; clears the audit PID first (NoWait) iff SetPID was used, then
+// closes the socket exactly once; later calls do nothing.
+//@ func (*libaudit.AuditClient).Close
+//@ requires !isNil(c.Netlink)
+//@ modifies c.closeOnce, c.pendingAcks, elemsOf(uint32), envbytes, alloc, envlog
+//@ ensures[C17] done(c.closeOnce)
+//@ ensures[C17] old(done(c.closeOnce)) ==> envlen() == old(envlen()) && isNil(result0)
+//@ ensures[C17] !old(done(c.closeOnce)) ==> envlen() > old(envlen()) && envkind(envlen() - 1) == kClose() && (forall i int :: old(envlen()) <= i && i < envlen() - 1 ==> envkind(i) != kClose())
+//@ ensures[C17] !old(done(c.closeOnce)) && !c.clearPIDOnClose ==> envlen() == old(envlen()) + 1
+//@ ensures[C17] !old(done(c.closeOnce)) && c.clearPIDOnClose ==> envlen() == old(envlen()) + 2 && sendIs(old(envlen()), 1001, 44) && statusWords(old(envlen()), 4, 0, 0, 0, 0, 0, 0, 0, 0, 0, 0)
